@@ -10,6 +10,7 @@ CONSTANTS
   Plans = {"whole", "hdr", "pay"}
   Frames <- FramesQuick
   MaxFrames = 3
+  Spellings <- SpellCanon
   Pres = {"none"}
   PushPays <- PushNone
 INIT MCInit
